@@ -239,6 +239,11 @@ class PosClassifier:
             # indices of the non-zero entries of an array of the grid's shape: the result of a
             # visibility function called on this very grid (VisibilityFunction protocol: one
             # boolean per cell), read through np.argwhere / np.nonzero / np.where
+            if any(isinstance(el, ast.Call) and src(el.func) == 'int' and len(el.args) == 1
+                   and isinstance(el.args[0], ast.Name) for el in p.elts):
+                # int(y) of an index drawn from np.argwhere: the same index
+                p = ast.Tuple([el.args[0] if isinstance(el, ast.Call) and src(el.func) == 'int'
+                               and len(el.args) == 1 else el for el in p.elts], ast.Load())
             if all(isinstance(el, ast.Name) for el in p.elts):
                 for t, it in loops:
                     if not (isinstance(t, ast.Tuple) and [src(x) for x in t.elts] ==
@@ -315,6 +320,59 @@ def _is_position_index(sl: ast.AST) -> bool:
     return False
 
 
+def _bounds_to_contains(node: ast.FunctionDef) -> ast.FunctionDef:
+    """`0 <= a < H and 0 <= b < W` with H, W the extents of one grid G (directly, or locals
+    bound to them) is `G.area.contains((a, b))`: the integer spelling of the in-grid test is
+    rewritten (on a copy) so that the domination check sees one predicate"""
+    import copy
+    w0 = walk_function(node)
+
+    def extent(e: ast.AST, dim: str):
+        t = src(w0.expand(e))
+        for suf in (f'.shape.{dim}', f'.area.{dim}'):
+            if t.endswith(suf):
+                return t[:-len(suf)]
+        if dim == 'height' and t.startswith('len(') and t.endswith('.objects)'):
+            return t[4:-len('.objects)')]
+        if dim == 'width' and t.startswith('len(') and t.endswith('.objects[0])'):
+            return t[4:-len('.objects[0])')]
+        return None
+
+    def half(c: ast.AST, dim: str):
+        if isinstance(c, ast.Compare) and len(c.ops) == 2 and \
+                isinstance(c.ops[0], ast.LtE) and isinstance(c.ops[1], ast.Lt) and \
+                isinstance(c.left, ast.Constant) and c.left.value == 0:
+            g = extent(c.comparators[1], dim)
+            if g is not None:
+                return g, c.comparators[0]
+        return None
+    changed = [False]
+
+    class T(ast.NodeTransformer):
+        def visit_BoolOp(self, n: ast.BoolOp):
+            self.generic_visit(n)
+            if not isinstance(n.op, ast.And):
+                return n
+            vals = list(n.values)
+            for i, a in enumerate(vals):
+                ha = half(a, 'height')
+                if ha is None:
+                    continue
+                for j, b in enumerate(vals):
+                    hb = half(b, 'width') if j != i else None
+                    if hb is None or hb[0] != ha[0]:
+                        continue
+                    call = ast.parse(f'{ha[0]}.area.contains(({src(ha[1])}, {src(hb[1])}))',
+                                     mode='eval').body
+                    rest = [v for k, v in enumerate(vals) if k not in (i, j)]
+                    changed[0] = True
+                    out = [call] + rest
+                    return out[0] if len(out) == 1 else ast.BoolOp(ast.And(), out)
+            return n
+    out = T().visit(copy.deepcopy(node))
+    return ast.fix_missing_locations(out) if changed[0] else node
+
+
 def check_function(index: RepoIndex, rep, rule: str, f: Func, ev: Evaluator,
                    qual: Optional[str] = None) -> int:
     """returns the number of sinks analysed in f"""
@@ -322,6 +380,7 @@ def check_function(index: RepoIndex, rep, rule: str, f: Func, ev: Evaluator,
     node = f.node
     if qual is None and f.cls is None:
         node, _ = component_node(index, f)
+    node = _bounds_to_contains(node)
     w = walk_function(node)
     gn = grid_names_of(node, w)
     pc = PosClassifier(f, w, gn)
